@@ -21,7 +21,9 @@ ASSUMPTIONS = [
     "value; remove(key) is Ok iff the key is present (bpf_map_delete_elem fails only with ENOENT) and then removes exactly that key, nothing else changes. "
     "What is PROVED there: both functions build the key sock_addr_audit_key::from_source_port(source_port).to_array() == [6, port] and decode the value field by field",
     "RedirectorSharedState::get_bpf_object (stub): Ok(Some(_)) iff loaded; the BPF object is not cleared between the two awaits (lookup, remove) of one accept "
-    "(clear_bpf_object is only called by redirector::close at shutdown); std::sync::Mutex::lock on the BpfObject mutex is not poisoned (DESIGN 2.5 item 8)",
+    "(clear_bpf_object is only called by redirector::close at shutdown); std::sync::Mutex::lock on the BpfObject mutex blocks until acquired and is not poisoned "
+    "(DESIGN 2.5 item 8); Mutex::try_lock is UNCONSTRAINED (Err(WouldBlock) whenever another thread holds the lock), so a body that skips the removal under "
+    "contention fails remove_audit.succeeds_on_present_record; Display of TryLockError/PoisonError does not panic",
     "await-interleaving model: the ghost map is threaded sequentially through ONE accept; other tasks (concurrently accepted connections) only remove THEIR source port "
     "(proved frame: final == old.remove(port)), and two live connections to the listener have different source ports; lemma_accepts_on_distinct_ports_commute",
     "derived Clone of TcpConnectionContext copies id, client_addr, claims, destination_ip, destination_port, sender (E9 vx_e9_tcp_ctx_clone; the log queue is "
@@ -147,6 +149,7 @@ def build(u):
             u.take_fn(rd, "AuditEntry::destination_ipv4_addr", contract="        ensures r == dest_ip_of(*self),  // @C07.AuditEntry.destination_ip_decoding\n")
         build_linux(u, lx, eo)
         u.take_fn(rd, "lookup_audit", ghost=K, ghost_calls=gc(rd, "lookup_audit", ["get_bpf_object", "lookup_audit"]),
+                  pre_body="broadcast use group_fmt_lock_errors, axiom_to_string_string;",
                   contract="""
         ensures
             *final(k) == *old(k),
@@ -155,12 +158,14 @@ def build(u):
             r is Ok ==> old(k).loaded,
 """)
         u.take_fn(rd, "remove_audit", ghost=K, ghost_calls=gc(rd, "remove_audit", ["get_bpf_object", "remove_audit_map_entry"]),
+                  pre_body="broadcast use group_fmt_lock_errors, axiom_to_string_string;",
                   contract="""
         ensures
             final(k).loaded == old(k).loaded,
             r is Ok ==> final(k).audit == old(k).audit.remove(source_port),  // @C07.remove_audit.removes_exactly_this_port
             r is Err ==> final(k).audit == old(k).audit,
-            old(k).loaded && old(k).audit.contains_key(source_port) ==> r is Ok,  // @C07.remove_audit.succeeds_on_present_record
+            // while the BPF object is loaded and the map has the key, the record IS removed (Err only if the object is absent or the kernel call fails)
+            old(k).loaded && old(k).audit.contains_key(source_port) ==> r is Ok && !final(k).audit.contains_key(source_port),  // @C07.remove_audit.succeeds_on_present_record
 """)
 
 
